@@ -268,7 +268,7 @@ fn main() {
     for server in [true, false] {
         sink.merge(grid_sweep(&run, &[&MSG_HANDSHAKE], 64, &|c, n| cat::hello_grid(server, false, thorough, c, n), &no_wrap, &no_extra));
     }
-    for style in [1u8, 3, 4, 6, 7, 8, 10, 11, 12, 13, 14, 15, 16, 17, 18, 19] {
+    for style in [1u8, 3, 4, 6, 7, 8, 10, 11, 12, 13, 14, 15, 16, 17, 18, 19, 20, 21] {
         use vcommon::en::with_fill_style as wfs;
         sink.merge(struct_sweep(&run, &[&MSG_HANDSHAKE], &wfs(style, || cat::handshake_messages(false)), 0, &sfx, 64, &no_extra));
     }
